@@ -679,7 +679,7 @@ func Run(c *vh.Ctx) {
 			c.Note("cannot start model: %v", err)
 		} else {
 			r.m = m
-			defer func() { fmt.Fprintln(os.Stderr, "closing model"); m.Close(); fmt.Fprintln(os.Stderr, "model closed") }()
+			defer m.Close()
 			c.Res.ModelUsed = true
 		}
 	}
@@ -699,14 +699,16 @@ func Run(c *vh.Ctx) {
 		r.add(g)
 	}
 	r.flush()
-	sk := skeletons([]int{1})
-	for _, p := range sk {
-		r.add(gcase{Prog: p, Stream: "skeleton"})
+	nsk := 0
+	for _, p := range skeletons([]int{1}) {
+		if !badCaseBreak(p) { // statements behind a direct `break` in a case: rejected by the switch parser
+			r.add(gcase{Prog: p, Stream: "skeleton"})
+			nsk++
+		}
 	}
-	skm := skeletons([]int{2})
 	nm := 0
-	for _, p := range skm {
-		if p.MultiLevel() {
+	for _, p := range skeletons([]int{2}) {
+		if p.MultiLevel() && !badCaseBreak(p) {
 			r.add(gcase{Prog: p, Stream: "known-multi"})
 			nm++
 		}
@@ -714,7 +716,7 @@ func Run(c *vh.Ctx) {
 	r.flush()
 	if !r.stopped {
 		c.Res.Exhaustive = true
-		c.Res.ExhaustiveWhat = fmt.Sprintf("all two-level skeletons: outer in {while,do,for,foreach,switch} x inner in {none,if,while,do,for,foreach,switch} x jump in {none,break,continue,return} x {unguarded, guarded by the counters} x {before, after the inner echo} x {main program, function body called twice}: %d programs with level 1, %d with level 2 (known stream)", len(sk), nm)
+		c.Res.ExhaustiveWhat = fmt.Sprintf("all two-level skeletons: outer in {while,do,for,foreach,switch} x inner in {none,if,while,do,for,foreach,switch} x jump in {none,break,continue,return} x {unguarded, guarded by the counters} x {before, after the inner echo} x {main program, function body called twice}, minus those with statements behind a `break` written directly in a case body (rejected by the switch parser): %d programs with level 1, %d with level 2 (known stream)", nsk, nm)
 	}
 	// seeded programs
 	n := c.N(1500, 60000)
